@@ -301,7 +301,9 @@ func (ex *exec) evalLoc1(st *State, e ast.Expr, soft bool) *Ptr {
 			if sv.Base.Obj == nil {
 				ex.fail(e.Pos(), "index of nil slice")
 			}
-			return sv.Base.with(Sel{Field: -1, Idx: ex.add(sv.Off, idx)})
+			r := sv.Base.with(Sel{Field: -1, Idx: ex.add(sv.Off, idx)})
+			r.Span = ex.sub(sv.Len, idx)
+			return r
 		}
 		ex.fail(e.Pos(), "index of %s", xt)
 	case *ast.CompositeLit:
@@ -323,7 +325,9 @@ func (ex *exec) indexLoc(st *State, base *Ptr, arrT types.Type, e *ast.IndexExpr
 	if check {
 		ex.boundsCheck(st, idx, ex.idxConst(at.Len()), e.Pos())
 	}
-	return base.with(Sel{Field: -1, Idx: idx})
+	r := base.with(Sel{Field: -1, Idx: idx})
+	r.Span = ex.sub(ex.idxConst(at.Len()), idx)
+	return r
 }
 
 // evalIndex evaluates an index expression and widens it to the index sort.
@@ -358,7 +362,35 @@ func (ex *exec) toIndex(v *Term, t types.Type) *Term {
 
 func (ex *exec) boundsCheck(st *State, idx, n *Term, pos token.Pos) {
 	g := And(ex.le(ex.idxConst(0), idx), ex.lt(idx, n))
-	ex.oblige(st, "index", "", g, pos)
+	ex.runtimeCheck(st, "index", "", g, pos)
+}
+
+// runtimeCheck: a Go run-time check (index, slice bounds, nil, division).  Failing it
+// panics, which the contract may allow through panics_if (conditions on entry values).
+func (ex *exec) runtimeCheck(st *State, kind, label string, g *Term, pos token.Pos) {
+	if g == True {
+		ex.oblige(st, kind, label, g, pos)
+		return
+	}
+	ex.oblige(st, kind, label, Or(g, ex.allowedPanic()), pos)
+	st.assume(g)
+}
+
+func (ex *exec) allowedPanic() *Term {
+	if ex.allowed != nil {
+		return ex.allowed
+	}
+	fr := ex.frames[0]
+	var conds []*Term
+	if ex.ct != nil && fr.entry != nil {
+		for _, p := range ex.ct.PanicsIf {
+			env := ex.newSpecEnv(fr.entry, fr, nil)
+			env.old = fr.entry
+			conds = append(conds, env.toBool(env.eval(p.Expr)))
+		}
+	}
+	ex.allowed = Or(conds...)
+	return ex.allowed
 }
 
 func (ex *exec) evalSliceExpr(st *State, e *ast.SliceExpr) Value {
@@ -400,15 +432,16 @@ func (ex *exec) evalSliceExpr(st *State, e *ast.SliceExpr) Value {
 		mx = ex.evalIndex(st, e.Max)
 	}
 	// Go spec: 0 <= lo <= hi <= max <= cap
-	limit := cp
-	if ex.strictLen(e.X) {
-		limit = ln // strict_len parameters: slicing beyond len is a silent out-of-range access
-	}
-	g := And(ex.le(ex.idxConst(0), lo), ex.le(lo, hi), ex.le(hi, mx), ex.le(mx, limit))
+	g := And(ex.le(ex.idxConst(0), lo), ex.le(lo, hi), ex.le(hi, mx), ex.le(mx, cp))
 	if e.Max == nil {
-		g = And(ex.le(ex.idxConst(0), lo), ex.le(lo, hi), ex.le(hi, limit))
+		g = And(ex.le(ex.idxConst(0), lo), ex.le(lo, hi), ex.le(hi, cp))
 	}
-	ex.oblige(st, "slice", "", g, e.Pos())
+	ex.runtimeCheck(st, "slice", "", g, e.Pos())
+	if ex.strictLen(e.X) {
+		// strict_len parameters: Go does not panic when slicing beyond len within cap;
+		// that would be a silent out-of-range access, so it must be impossible here
+		ex.oblige(st, "slice", "within-len", ex.le(hi, ln), e.Pos())
+	}
 	return &Slice{Base: base, Off: ex.add(off, lo), Len: ex.sub(hi, lo), Cap: ex.sub(mx, lo), Nil: And(nilc, True), Elem: elem}
 }
 
@@ -822,7 +855,7 @@ func (ex *exec) binop(st *State, op token.Token, t types.Type, l, r *Term, pos t
 	case token.AND_NOT:
 		return BVAnd(l, BVNot(r))
 	case token.QUO, token.REM:
-		ex.oblige(st, "div", "nonzero", Not(Eq(r, BVC64(w, 0))), pos)
+		ex.runtimeCheck(st, "div", "nonzero", Not(Eq(r, BVC64(w, 0))), pos)
 		if ex.taint {
 			ex.checkPublic(st, l, "div-operand", pos)
 			ex.checkPublic(st, r, "div-operand", pos)
